@@ -179,7 +179,7 @@ func main() {
 			n = 120000
 		}
 	}
-	rng := lib.NewRng(fl.Seed)
+	rng := lib.NewRng(fl.Seed).Fork() // Fork: NewRng(s) and NewRng(s+1) are the same splitmix stream shifted by one step
 	id := 0
 	next := func() string { id++; return fmt.Sprintf("c%d", id) }
 
@@ -284,7 +284,11 @@ func main() {
 		case 2: // wrap in a reserved-looking map
 			nb := lib.JsonReservedNeighbourhood(rng)
 			w := nb[rng.Intn(len(nb))]
-			v = lib.Map(lib.Entry{K: rng.GenStr(safe), V: v}, lib.Entry{K: "/", V: w})
+			k := rng.GenStr(safe)
+			if k == "/" {
+				k = "k"
+			}
+			v = lib.Map(lib.Entry{K: k, V: v}, lib.Entry{K: "/", V: w})
 		}
 		base := next()
 		holders := lib.HoldersFor(v)
